@@ -450,6 +450,12 @@ class SymEx:
         if thr:
             for c in thr:
                 self.effect(c.state, 'throw', where=callnode.where())
+            # the caller continues only on the paths on which the callee did not throw
+            d = FALSE
+            for c in live:
+                d = lor(d, self.rel(c.state.pc, base))
+            if d != TRUE:
+                st.pc = tuple(base) + (d,)
         st.env = merged.env
         st.refs = merged.refs
         return ret
